@@ -183,7 +183,9 @@ fn seq_nth(i: u64, len: usize) -> Option<Enumerated> {
 
 // ---- random tier
 
-const RNAMES: [&str; 3] = ["x", "y", "z"];
+// the third name is one the path resolver also knows as a built-in member (`size`): as a variable
+// it must behave like any other name
+const RNAMES: [&str; 3] = ["x", "y", "size"];
 
 fn rand_cfg() -> GenCfg {
     GenCfg {
